@@ -65,6 +65,16 @@ type swEvent struct {
 
 var swCalls int
 
+// reconfigure puts the scheme of the case back on an aligner that has already been used (match / mismatch scores can be
+// set again; the built-in matrix cannot be selected again once SetScore was called, so those cases get a new aligner)
+func reconfigure(a align.PairwiseAligner, q1, q2 align.Sequence, c swCase) align.PairwiseAligner {
+	if c.Sch.Mode == "scores" {
+		a.SetScore(float64(c.Sch.Match)/c.Sch.unit(), float64(c.Sch.Mismatch)/c.Sch.unit())
+		return a
+	}
+	return align.NewPwAligner(q1, q2, align.ALIGN_ALGO_SW)
+}
+
 func runSW(env *Env, id string, c swCase) {
 	ev := swEvent{ID: id, S1: c.S1, S2: c.S2, Sch: c.Sch, Algo: "sw"}
 	ev.Obs = swObs{R1: []int{}, R2: []int{}, After1: []int{}, After2: []int{}}
@@ -79,9 +89,18 @@ func runSW(env *Env, id string, c swCase) {
 		}()
 		q1 := align.NewSequence("s1", i2b(c.S1), "")
 		q2 := align.NewSequence("s2", i2b(c.S2), "")
-		a := align.NewPwAligner(q1, q2, align.ALIGN_ALGO_SW)
+		var a align.PairwiseAligner = align.NewPwAligner(q1, q2, align.ALIGN_ALGO_SW)
 		if c.Sch.Mode == "scores" {
 			a.SetScore(float64(c.Sch.Match)/c.Sch.unit(), float64(c.Sch.Mismatch)/c.Sch.unit())
+		}
+		if swCalls%5 == 4 {
+			// the aligner is first used with another scheme (high match score), then configured for this case: nothing
+			// of the first answer may be left in the second
+			a.SetScore(100, -1)
+			a.SetGapOpenScore(-1)
+			a.SetGapExtendScore(-1)
+			a.Alignment()
+			a = reconfigure(a, q1, q2, c)
 		}
 		a.SetGapOpenScore(float64(c.Sch.Open) / c.Sch.unit())
 		a.SetGapExtendScore(float64(c.Sch.Ext) / c.Sch.unit())
